@@ -91,8 +91,22 @@ package PVM
 //@   requires sane: *input.VM.Gas > -9223372036854775000
 //@   ghost h uint64
 //@   ensures smallest_free: output.ExitReason == ExitContinue && input.VM.Registers[7] < 18446744073709551000 && h == input.VM.Registers[7] ==> !old(has(input.Addition.IntegratedPVMMap, h)) && (j < h ==> old(has(input.Addition.IntegratedPVMMap, j)))
+//@   ensures panic_clean: output.ExitReason == ExitPanic ==> frame_only(*input.VM.Gas)
 //@   ensures stored: output.ExitReason == ExitContinue && input.VM.Registers[7] < 18446744073709551000 ==> has(input.Addition.IntegratedPVMMap, input.VM.Registers[7]) && input.Addition.IntegratedPVMMap[input.VM.Registers[7]].PC == ProgramCounter(old(input.VM.Registers[9])) && input.Addition.IntegratedPVMMap[input.VM.Registers[7]].Memory.Pages != nil
 //@   assigns everything
 //@   loop n#0
 //@     invariant scanned: all(q, uint64, q < n ==> has(input.Addition.IntegratedPVMMap, q))
 //@     invariant frame: frame_only(*input.VM.Gas)
+
+// ---- C07: a host call that panics (unreadable input range) has no side effect besides the gas charge ----
+// yield (host call 25): x_y' = the 32 octets at omega7
+//@ func yield
+//@   props C07 C10
+//@   requires nonnil: input.VM != nil && input.VM.Gas != nil && input.VM.Registers != nil && input.VM.Memory != nil && wf_mem(input.VM.Memory)
+//@   requires sane: *input.VM.Gas > -9223372036854775000
+//@   ensures charged: *input.VM.Gas == old(*input.VM.Gas) - 10
+//@   ensures oog: old(*input.VM.Gas) < 10 ==> output.ExitReason == ExitOOG && frame_only(*input.VM.Gas)
+//@   ensures panic_clean: output.ExitReason == ExitPanic ==> frame_only(*input.VM.Gas) && output.Addition.ResultContextX == input.Addition.ResultContextX
+//@   ensures ok: output.ExitReason == ExitContinue ==> input.VM.Registers[7] == OK && output.Addition.ResultContextX.Exception != nil && fresh(output.Addition.ResultContextX.Exception) && frame_only(*input.VM.Gas, input.VM.Registers[7])
+//@   ensures exits: output.ExitReason == ExitContinue || output.ExitReason == ExitPanic || output.ExitReason == ExitOOG
+//@   assigns *input.VM.Gas, input.VM.Registers[7]
